@@ -49,6 +49,106 @@ def _attr_of_task(e: ast.expr, attr: str) -> Optional[str]:
     return None
 
 
+# ---------------------------------------------------------------------------
+# resolved-fact helpers (a value read through a local, a walrus, an alias or a
+# keyword argument is the same value)
+def _ident(cfg, name: ast.Name, at) -> frozenset:
+    """Identity of the object a local name holds at statement `at`: the set of leaves of
+    its origin expansion (the very expression node / loop / parameter that produced it)."""
+    out = set()
+    for o in origins(cfg, name, at):
+        if o.kind == "unknown":
+            out.add(("global", name.id))
+        else:
+            out.add((o.kind, tuple(o.path), id(o.expr)))
+    return frozenset(out)
+
+
+def _field_of(cfg, e: Optional[ast.expr], at, attr: str) -> Optional[frozenset]:
+    """When every origin of `e` is `<X>.<attr>` for a local X holding one and the same
+    object: the identity of X; otherwise None."""
+    if e is None:
+        return None
+    ids = set()
+    for o in origins(cfg, e, at):
+        x = o.expr
+        if not (o.kind == "expr" and not o.path and isinstance(x, ast.Attribute) and x.attr == attr and isinstance(x.value, ast.Name)):
+            return None
+        ids.add(_ident(cfg, x.value, o.stmt))
+    return next(iter(ids)) if len(ids) == 1 else None
+
+
+def _leaves_are(cfg, e: Optional[ast.expr], at, pred) -> bool:
+    """Every origin of `e` (at least one) satisfies pred(origin)."""
+    if e is None:
+        return False
+    os_ = origins(cfg, e, at)
+    return bool(os_) and all(pred(o) for o in os_)
+
+
+def _is_text(text: str):
+    return lambda o: o.kind == "expr" and not o.path and isinstance(o.expr, ast.AST) and norm(o.expr) == text
+
+
+def _is_param(o) -> bool:
+    return o.kind == "param" and not o.path
+
+
+def _loops_over(method: str):
+    return lambda o: o.kind == "for" and isinstance(o.expr, ast.Call) and last_attr(o.expr) == method
+
+
+def _value_key(cfg, e: Optional[ast.expr], at) -> Optional[frozenset]:
+    """Comparable key of a value: two expressions with equal keys evaluate the same text
+    over the same local objects."""
+    if e is None:
+        return None
+    out = set()
+    for o in origins(cfg, e, at):
+        if o.kind == "expr" and isinstance(o.expr, ast.AST):
+            names = frozenset((n.id, _ident(cfg, n, o.stmt)) for n in ast.walk(o.expr) if isinstance(n, ast.Name))
+            out.add(("expr", tuple(o.path), norm(o.expr), names))
+        else:
+            out.add((o.kind, tuple(o.path), id(o.expr)))
+    return frozenset(out)
+
+
+def _mentions(cfg, e: Optional[ast.expr], at, needle: str, _seen=None) -> bool:
+    """Does `e`, with local names expanded through their definitions, contain `needle`?"""
+    if e is None:
+        return False
+    if needle in norm(e):
+        return True
+    _seen = _seen if _seen is not None else set()
+    for n in ast.walk(e):
+        if isinstance(n, ast.Name) and isinstance(n.ctx, ast.Load):
+            for o in origins(cfg, n, at):
+                if o.kind == "expr" and isinstance(o.expr, ast.AST) and o.expr is not n and id(o.expr) not in _seen:
+                    _seen.add(id(o.expr))
+                    if _mentions(cfg, o.expr, o.stmt, needle, _seen):
+                        return True
+    return False
+
+
+def _arg(c: ast.Call, pos: int, name: Optional[str]) -> Optional[ast.expr]:
+    """Argument of a call given positionally or by keyword."""
+    if len(c.args) > pos and not any(isinstance(a, ast.Starred) for a in c.args[: pos + 1]):
+        return c.args[pos]
+    return kwarg(c, name) if name else None
+
+
+def _param_names(fn, skip_first: bool = True) -> List[str]:
+    names = [a.arg for a in fn.args.posonlyargs + fn.args.args]
+    return names[1:] if skip_first and names and names[0] in ("self", "cls") else names
+
+
+def _lint_partial(cfg, c: ast.Call) -> bool:
+    """functools.partial(<...>.lint_rendered, ...) - the callee may be held in a local."""
+    if last_attr(c) != "partial" or not c.args:
+        return False
+    return _leaves_are(cfg, c.args[0], cfg.stmt_of(c), lambda o: o.kind == "expr" and isinstance(o.expr, ast.Attribute) and o.expr.attr == "lint_rendered")
+
+
 def run(chk) -> None:
     repo = chk.repo
     chk.rule("R24a", "every render->pack->lint site uses the task's filename, the runner's root config and the task's fix flag; the deferred task packet carries filename, root config, fix and user rules")
@@ -66,70 +166,75 @@ def run(chk) -> None:
 
 
 # ---------------------------------------------------------------------------
+def _packet_fields(repo) -> List[str]:
+    """Field names of the DeferredRenderTask packet, in constructor order."""
+    cls = repo.cls(COMMON, "DeferredRenderTask")
+    return [s.target.id for s in cls.body if isinstance(s, ast.AnnAssign) and isinstance(s.target, ast.Name)]
+
+
 def _r24a(chk, repo, mod) -> None:
     n_sites = 0
+    fields = _packet_fields(repo)
+    if fields[:3] != ["fname", "root_config", "fix"] or "user_rules" not in fields:
+        raise AnalysisError(f"R24a: DeferredRenderTask fields changed: {fields}")
+    try:
+        seq_params = _param_names(repo.fn("src/sqlfluff/core/templaters/base.py", "RawTemplater.sequence_files"))
+        seq_cfg_pos = seq_params.index("config")
+    except (AnalysisError, ValueError):
+        seq_cfg_pos = 1
     for q, f in mod.functions():
         cfg = cfg_of(f)
-        params = [a.arg for a in f.args.args]
+        from_fnames_param = lambda o: _loops_over("sequence_files")(o) and bool(o.expr.args) and _leaves_are(cfg, o.expr.args[0], o.stmt, _is_param)  # noqa: E731
         for c in calls_in(f):
             if last_attr(c) != "render_file":
                 continue
             n_sites += 1
             st = cfg.stmt_of(c)
-            a_f = c.args[0] if c.args else kwarg(c, "fname")
-            a_r = c.args[1] if len(c.args) > 1 else kwarg(c, "root_config")
-            # filename
-            ok_f, ok_r, task = False, False, None
-            t = _attr_of_task(a_f, "fname") if a_f is not None else None
-            if t is not None:
-                task = t
-                ok_f = True
-            elif isinstance(a_f, ast.Name):
-                os_ = origins(cfg, a_f, st)
-                ok_f = bool(os_) and all(
-                    o.kind == "for" and isinstance(o.expr, ast.Call) and last_attr(o.expr) == "sequence_files"
-                    and o.expr.args and isinstance(o.expr.args[0], ast.Name) and o.expr.args[0].id in params
-                    for o in os_
-                )
+            a_f = _arg(c, 0, "fname")
+            a_r = _arg(c, 1, "root_config")
+            # filename: <task>.fname (possibly read into a local first) or the loop variable over sequence_files(<fnames param>)
+            task = _field_of(cfg, a_f, st, "fname")
+            ok_f = task is not None or _leaves_are(cfg, a_f, st, from_fnames_param)
             chk.require(ok_f, "R24a", c, "render_file is not given the task's own filename (the loop variable over sequence_files(fnames) or <task>.fname)", detail=f"{q}: render_file filename")
-            if a_r is not None:
-                if norm(a_r) == "self.config":
-                    ok_r = task is None
-                elif _attr_of_task(a_r, "root_config") is not None:
-                    ok_r = _attr_of_task(a_r, "root_config") == task
+            ok_r = False
+            if _leaves_are(cfg, a_r, st, _is_text("self.config")):
+                ok_r = task is None
+            else:
+                t_r = _field_of(cfg, a_r, st, "root_config")
+                ok_r = t_r is not None and t_r == task
             chk.require(ok_r, "R24a", c, "render_file is not given the runner's root config (self.config, or the root_config of the same task)", detail=f"{q}: render_file root config")
             # the lint call that consumes this rendering gets the task's fix flag
             lints = [x for x in calls_in(f) if last_attr(x) == "lint_rendered" and isinstance(x.func, ast.Attribute)]
             for lc in lints:
-                a_fix = lc.args[2] if len(lc.args) > 2 else kwarg(lc, "fix")
-                good = False
+                a_fix = _arg(lc, 2, "fix")
+                lst = cfg.stmt_of(lc)
                 if task is not None:
-                    good = a_fix is not None and _attr_of_task(a_fix, "fix") == task
+                    t_x = _field_of(cfg, a_fix, lst, "fix")
+                    good = t_x is not None and t_x == task
                 else:
-                    good = isinstance(a_fix, ast.Name) and a_fix.id in params
+                    good = _leaves_are(cfg, a_fix, lst, _is_param)
                 chk.require(good, "R24a", lc, "lint_rendered is not given the fix flag of the same task", detail=f"{q}: lint_rendered fix flag")
             chk.sample({"rule": "R24a", "site": f"{RUNNER}:{c.lineno}", "function": q, "call": short(c, 80)})
         # partial(self.linter.lint_rendered, rendered, rule_pack, fix, ...)
         for c in calls_in(f):
-            if last_attr(c) == "partial" and c.args and isinstance(c.args[0], ast.Attribute) and c.args[0].attr == "lint_rendered":
-                a_fix = c.args[3] if len(c.args) > 3 else None
-                chk.require(isinstance(a_fix, ast.Name) and a_fix.id in params, "R24a", c, "the lint partial does not forward the runner's fix flag", detail=f"{q}: partial fix flag")
-                a_rend = c.args[1] if len(c.args) > 1 else None
+            if _lint_partial(cfg, c):
                 st = cfg.stmt_of(c)
-                os_ = origins(cfg, a_rend, st) if isinstance(a_rend, ast.Name) else []
+                a_fix = _arg(c, 3, "fix")
+                chk.require(_leaves_are(cfg, a_fix, st, _is_param), "R24a", c, "the lint partial does not forward the runner's fix flag", detail=f"{q}: partial fix flag")
+                a_rend = _arg(c, 1, "rendered")
                 chk.require(
-                    bool(os_) and all(o.kind == "for" and isinstance(o.expr, ast.Call) and last_attr(o.expr) == "iter_rendered" for o in os_),
+                    _leaves_are(cfg, a_rend, st, _loops_over("iter_rendered")),
                     "R24a", c, "the lint partial is not built on the rendering produced by iter_rendered for that file", detail=f"{q}: partial rendering",
                 )
         # the rule pack of every lint call is built from the per-file config of the rendering it lints
         for c in calls_in(f):
             rend = rp = None
             if last_attr(c) == "lint_rendered" and isinstance(c.func, ast.Attribute):
-                rend = c.args[0] if c.args else kwarg(c, "rendered")
-                rp = c.args[1] if len(c.args) > 1 else kwarg(c, "rule_pack")
-            elif last_attr(c) == "partial" and c.args and isinstance(c.args[0], ast.Attribute) and c.args[0].attr == "lint_rendered":
-                rend = c.args[1] if len(c.args) > 1 else kwarg(c, "rendered")
-                rp = c.args[2] if len(c.args) > 2 else kwarg(c, "rule_pack")
+                rend = _arg(c, 0, "rendered")
+                rp = _arg(c, 1, "rule_pack")
+            elif _lint_partial(cfg, c):
+                rend = _arg(c, 1, "rendered")
+                rp = _arg(c, 2, "rule_pack")
             else:
                 continue
             chk.count("R24a.lint_sites")
@@ -137,23 +242,17 @@ def _r24a(chk, repo, mod) -> None:
             ok = False
             why = "rule pack or rendering argument missing"
             if isinstance(rend, ast.Name) and rp is not None:
-                os_ = origins(cfg, rp, st) if isinstance(rp, ast.Name) else []
-                if isinstance(rp, ast.Call):
-                    from ..cfg import Origin
-
-                    os_ = [Origin(rp, (), "expr", st)]
+                rid = _ident(cfg, rend, st)
+                os_ = origins(cfg, rp, st)
                 ok = bool(os_)
                 for o in os_:
                     if not (o.kind == "expr" and isinstance(o.expr, ast.Call) and last_attr(o.expr) == "get_rulepack" and not o.path):
                         ok, why = False, f"rule pack derives from {o.text()[:60]}, not from get_rulepack(config=<rendering>.config)"
                         break
-                    e = kwarg(o.expr, "config") or (o.expr.args[0] if o.expr.args else None)
-                    same = (
-                        isinstance(e, ast.Attribute) and e.attr == "config" and isinstance(e.value, ast.Name)
-                        and e.value.id == rend.id
-                        and cfg.reaching().defs_at(o.stmt, rend.id) == cfg.reaching().defs_at(st, rend.id)
-                    )
-                    if not same:
+                    e = _arg(o.expr, 0, "config")
+                    # <the linted rendering>.config, possibly read into a local first
+                    src = _field_of(cfg, e, o.stmt, "config")
+                    if not (src is not None and src == rid):
                         ok = False
                         why = (
                             f"rule pack is built from {norm(e) if e is not None else 'no config'!r}, not from the per-file config of the "
@@ -165,12 +264,11 @@ def _r24a(chk, repo, mod) -> None:
         for c in calls_in(f):
             if last_attr(c) == "DeferredRenderTask":
                 st = cfg.stmt_of(c)
-                a = list(c.args) + [None] * 4
-                os_ = origins(cfg, a[0], st) if isinstance(a[0], ast.Name) else []
-                ok0 = bool(os_) and all(o.kind == "for" and isinstance(o.expr, ast.Call) and last_attr(o.expr) == "sequence_files" for o in os_)
-                ok1 = a[1] is not None and norm(a[1]) == "self.config"
-                ok2 = isinstance(a[2], ast.Name) and a[2].id in params
-                ok3 = a[3] is not None and "self.linter.user_rules" in norm(a[3])
+                a = {name: _arg(c, i, name) for i, name in enumerate(fields)}
+                ok0 = _leaves_are(cfg, a["fname"], st, _loops_over("sequence_files"))
+                ok1 = _leaves_are(cfg, a["root_config"], st, _is_text("self.config"))
+                ok2 = _leaves_are(cfg, a["fix"], st, _is_param)
+                ok3 = _leaves_are(cfg, a["user_rules"], st, lambda o: o.kind == "expr" and isinstance(o.expr, ast.AST) and _mentions(cfg, o.expr, o.stmt, "self.linter.user_rules"))
                 chk.require(ok0 and ok1 and ok2, "R24a", c, "deferred task packet is not (filename of this iteration, self.config, fix)", detail=f"{q}: deferred packet fields")
                 chk.require(ok3, "R24a", c, "deferred task packet does not carry the linter's user rules: a worker would lint with a different rule set than a sequential run",
                             detail=f"{q}: deferred packet user rules")
@@ -178,8 +276,8 @@ def _r24a(chk, repo, mod) -> None:
         # both generators sequence files with the runner's root config
         for c in calls_in(f):
             if last_attr(c) == "sequence_files":
-                e = kwarg(c, "config")
-                chk.require(e is not None and norm(e) == "self.config", "R24a", c, "sequence_files is not given the runner's root config", detail=f"{q}: sequence_files config")
+                e = _arg(c, seq_cfg_pos, "config")
+                chk.require(_leaves_are(cfg, e, cfg.stmt_of(c), _is_text("self.config")), "R24a", c, "sequence_files is not given the runner's root config", detail=f"{q}: sequence_files config")
     chk.count("R24a.render_sites", n_sites)
     chk.floor("R24a.render_sites", 3)
     chk.floor("R24a.lint_sites", 3)
@@ -209,17 +307,38 @@ def _self_attr_reads(repo, cls: ast.ClassDef, method: str, seen: Set[str]) -> Se
     return out
 
 
+def _root_node(e: ast.AST) -> Optional[ast.Name]:
+    while isinstance(e, (ast.Attribute, ast.Subscript, ast.Call)):
+        e = e.func if isinstance(e, ast.Call) else e.value
+    return e if isinstance(e, ast.Name) else None
+
+
+def _from_packet(cfg, v: ast.expr, at) -> bool:
+    """Every origin of `v` reads a member of something the function received as a parameter."""
+    def leaf_ok(o) -> bool:
+        if not (o.kind == "expr" and isinstance(o.expr, ast.AST)):
+            return False
+        for x in ast.walk(o.expr):
+            if isinstance(x, ast.Attribute):
+                r = _root_node(x)
+                if r is not None and _leaves_are(cfg, r, o.stmt, lambda oo: oo.kind == "param"):
+                    return True
+        return False
+    return _leaves_are(cfg, v, at, leaf_ok)
+
+
 def _r24e(chk, repo, mod) -> None:
     lcls = repo.cls(LINTER, "Linter")
     init = repo.fn(LINTER, "Linter.__init__")
-    icfg = cfg_of(init)
     # attribute -> constructor params it is computed from
     attr_from: dict = {}
     iparams = [a.arg for a in init.args.args][1:]
     for n in walk_local(init):
-        if isinstance(n, ast.Assign) and isinstance(n.targets[0], ast.Attribute) and isinstance(n.targets[0].value, ast.Name) and n.targets[0].value.id == "self":
-            names = {x.id for x in ast.walk(n.value) if isinstance(x, ast.Name)} & set(iparams)
-            attr_from[n.targets[0].attr] = names
+        if isinstance(n, (ast.Assign, ast.AnnAssign)) and n.value is not None:
+            tgt = n.targets[0] if isinstance(n, ast.Assign) else n.target
+            if isinstance(tgt, ast.Attribute) and isinstance(tgt.value, ast.Name) and tgt.value.id == "self":
+                names = {x.id for x in ast.walk(n.value) if isinstance(x, ast.Name)} & set(iparams)
+                attr_from[tgt.attr] = names
     n_workers = 0
     for q, f in mod.functions():
         cfg = cfg_of(f)
@@ -228,17 +347,17 @@ def _r24e(chk, repo, mod) -> None:
                 continue
             n_workers += 1
             st = cfg.stmt_of(c)
-            var = None
-            if isinstance(st, ast.Assign) and isinstance(st.targets[0], ast.Name):
-                var = st.targets[0].id
+            # a local name holds the rebuilt Linter where all its origins are this very constructor call
+            holds = lambda name: isinstance(name, ast.Name) and _leaves_are(cfg, name, cfg.stmt_of(name), lambda o: o.expr is c and not o.path)  # noqa: E731
             passed = {k.arg for k in c.keywords if k.arg} | set(iparams[: len(c.args)])
-            called = {last_attr(x) for x in calls_in(f) if isinstance(x.func, ast.Attribute) and isinstance(x.func.value, ast.Name) and x.func.value.id == var}
+            value_of = {p: _arg(c, i, p) for i, p in enumerate(iparams)}
+            called = {last_attr(x) for x in calls_in(f) if isinstance(x.func, ast.Attribute) and holds(x.func.value)}
             reads: Set[str] = set()
             for m in called:
                 reads |= _self_attr_reads(repo, lcls, m, set())
             assigned_after = {
                 n.targets[0].attr for n in walk_local(f)
-                if isinstance(n, ast.Assign) and isinstance(n.targets[0], ast.Attribute) and isinstance(n.targets[0].value, ast.Name) and n.targets[0].value.id == var
+                if isinstance(n, ast.Assign) and isinstance(n.targets[0], ast.Attribute) and holds(n.targets[0].value)
             }
             needed = set()
             for attr in reads:
@@ -253,20 +372,22 @@ def _r24e(chk, repo, mod) -> None:
                 detail=f"{q}: worker Linter inputs",
             )
             # the values passed must come from the task packet
-            for k in c.keywords:
-                if k.arg in needed:
-                    roots = {root_name(x) for x in ast.walk(k.value) if isinstance(x, ast.Attribute)}
-                    os_ok = any(r is not None for r in roots)
-                    chk.require(os_ok, "R24e", c, f"worker Linter input {k.arg} does not come from the task packet", detail=f"{q}: worker Linter {k.arg} from task")
+            for p in iparams:
+                if p in needed and value_of.get(p) is not None:
+                    chk.require(_from_packet(cfg, value_of[p], st), "R24e", c, f"worker Linter input {p} does not come from the task packet", detail=f"{q}: worker Linter {p} from task")
             chk.sample({"rule": "R24e", "site": f"{RUNNER}:{c.lineno}", "methods_called": sorted(called), "attributes_read": sorted(reads), "inputs_needed": sorted(needed), "passed": sorted(passed)})
             # templater is re-created from the same config
             if "templater" in reads:
                 ok = False
+                cfg_arg = value_of.get("config")
+                cfg_key = _value_key(cfg, cfg_arg, st)
+                from_same_config = lambda o: (  # noqa: E731
+                    o.kind == "expr" and not o.path and isinstance(o.expr, ast.Call) and last_attr(o.expr) == "get_templater"
+                    and isinstance(o.expr.func, ast.Attribute) and _value_key(cfg, o.expr.func.value, o.stmt) == cfg_key
+                )
                 for n in walk_local(f):
-                    if isinstance(n, ast.Assign) and isinstance(n.targets[0], ast.Attribute) and n.targets[0].attr == "templater" and root_name(n.targets[0]) == var:
-                        v = n.value
-                        cfg_arg = kwarg(c, "config")
-                        if isinstance(v, ast.Call) and last_attr(v) == "get_templater" and cfg_arg is not None and norm(v.func.value) == norm(cfg_arg):
+                    if isinstance(n, ast.Assign) and isinstance(n.targets[0], ast.Attribute) and n.targets[0].attr == "templater" and holds(n.targets[0].value):
+                        if cfg_arg is not None and _leaves_are(cfg, n.value, n, from_same_config):
                             ok = True
                 chk.require(ok, "R24e", c, "worker does not re-create the templater from the config it was given (the pickled config carries no templater object)", detail=f"{q}: worker templater re-created")
     chk.count("R24e.worker_linters", n_workers)
@@ -278,44 +399,50 @@ def _r24b(chk, repo) -> None:
     f = repo.fn(LINTER, "Linter.lint_paths")
     cfg = cfg_of(f)
     loop = None
+    runs = lambda x: x.kind == "expr" and isinstance(x.expr, ast.Call) and last_attr(x.expr) == "run"  # noqa: E731
     for n in walk_local(f):
         if isinstance(n, ast.For) and isinstance(n.iter, ast.Call) and call_name(n.iter) == "enumerate" and n.iter.args:
-            o = origins(cfg, n.iter.args[0], n) if isinstance(n.iter.args[0], ast.Name) else []
-            if any(isinstance(x.expr, ast.Call) and last_attr(x.expr) == "run" for x in o):
+            if any(runs(x) for x in origins(cfg, n.iter.args[0], n)):
                 loop = n
-        if isinstance(n, ast.For) and isinstance(n.iter, ast.Name):
-            o = origins(cfg, n.iter, n)
-            if any(isinstance(x.expr, ast.Call) and last_attr(x.expr) == "run" for x in o):
-                loop = n
+        if isinstance(n, ast.For) and any(runs(x) for x in origins(cfg, n.iter, n)):
+            loop = n
     if loop is None:
         raise AnalysisError("R24b: loop over runner.run(...) not found in Linter.lint_paths")
-    tvars = [x.id for x in ast.walk(loop.target) if isinstance(x, ast.Name)]
-    adds = [c for c in calls_in(loop) if last_attr(c) == "add" and c.args and isinstance(c.args[0], ast.Name) and c.args[0].id in tvars]
+    is_result = lambda e: isinstance(e, ast.Name) and _leaves_are(cfg, e, cfg.stmt_of(e), lambda o: o.kind == "for" and o.stmt is loop)  # noqa: E731
+    adds = [c for c in calls_in(loop) if last_attr(c) == "add" and c.args and is_result(c.args[0])]
     chk.require(len(adds) == 1, "R24b", loop, "each runner result must be added to exactly one LintedDir", detail="one add per result")
     for c in adds:
         st = cfg.stmt_of(c)
-        recv = c.func.value
-        ok = False
-        os_ = origins(cfg, recv, st) if isinstance(recv, ast.Name) else []
-        for o in os_:
+        rid = _ident(cfg, c.args[0], st)
+
+        def own_path_lookup(o) -> bool:
+            # <table>[<this result>.path]; the key may be read into a local first
             e = o.expr
-            if isinstance(e, ast.Subscript) and isinstance(e.slice, ast.Attribute) and e.slice.attr == "path" and isinstance(e.slice.value, ast.Name) and e.slice.value.id == c.args[0].id:
-                ok = len(os_) == 1
+            if not (o.kind == "expr" and not o.path and isinstance(e, ast.Subscript)):
+                return False
+            src = _field_of(cfg, e.slice, o.stmt, "path")
+            return src is not None and src == rid
+
+        ok = _leaves_are(cfg, c.func.value, st, own_path_lookup)
         chk.require(ok, "R24b", c, "a result is filed under a directory that is not looked up by the result's own path (arrival order would matter)", detail="result filed by own path")
     # the lookup table is filled per discovered file
-    fills = [n for n in walk_local(f) if isinstance(n, ast.Assign) and isinstance(n.targets[0], ast.Subscript) and isinstance(n.targets[0].slice, ast.Name)]
-    ok = False
-    for n in fills:
-        o = origins(cfg, n.targets[0].slice, n)
-        if o and all(x.kind == "for" and isinstance(x.expr, ast.Call) and last_attr(x.expr) == "paths_from_path" for x in o):
-            ok = True
+    fills = [n for n in walk_local(f) if isinstance(n, ast.Assign) and isinstance(n.targets[0], ast.Subscript)]
+    ok = any(_leaves_are(cfg, n.targets[0].slice, n, lambda x: x.kind == "for" and isinstance(x.expr, ast.Call) and last_attr(x.expr) == "paths_from_path") for n in fills)
     chk.require(ok, "R24b", f, "the path -> LintedDir table is not filled for every file yielded by paths_from_path", detail="lookup table filled per file")
-    # skip counter read after the loop
+    # skip counter read after the loop (on every path the loop header has been passed and we are outside its body)
+    after = lambda n: n is not None and not _inside(n, loop) and cfg.dominates(loop, n)  # noqa: E731
+    counter_read_after = lambda o: o.kind == "expr" and isinstance(o.expr, ast.Attribute) and o.expr.attr == "skipped_file_count" and after(o.stmt)  # noqa: E731
     sk = [n for n in walk_local(f) if isinstance(n, ast.Assign) and isinstance(n.targets[0], ast.Attribute) and n.targets[0].attr == "files_skipped"]
-    chk.require(bool(sk) and all(not _inside(n, loop) and n.lineno > loop.lineno for n in sk), "R24b", f, "files_skipped must be transferred from the runner after the result stream ended", detail="skip counter after stream")
+    chk.require(bool(sk) and all(after(n) and _leaves_are(cfg, n.value, n, counter_read_after) for n in sk), "R24b", f,
+                "files_skipped must be transferred from the runner after the result stream ended", detail="skip counter after stream")
     ar = repo.fn(LRES, "LintingResult.as_records")
+    acfg = cfg_of(ar)
     rets = [r for r in walk_local(ar) if isinstance(r, ast.Return)]
-    ok = all(isinstance(r.value, ast.Call) and call_name(r.value) == "sorted" and kwarg(r.value, "key") is not None and "filepath" in norm(kwarg(r.value, "key")) for r in rets) and bool(rets)
+    sorted_by_path = lambda o: (  # noqa: E731
+        o.kind == "expr" and not o.path and isinstance(o.expr, ast.Call) and call_name(o.expr) == "sorted"
+        and kwarg(o.expr, "key") is not None and _mentions(acfg, kwarg(o.expr, "key"), o.stmt, "filepath")
+    )
+    ok = bool(rets) and all(_leaves_are(acfg, r.value, r, sorted_by_path) for r in rets)
     chk.require(ok, "R24b", ar, "LintingResult.as_records does not return the records sorted by file path", detail="records sorted by path")
 
 
@@ -329,88 +456,298 @@ def _inside(n, container) -> bool:
 
 
 # ---------------------------------------------------------------------------
+class _Dict:
+    """Abstract dict value while following __getstate__: 'live' = an object reachable from
+    self (key path below self.__dict__), 'copy' = a fresh shallow/deep copy of that object
+    with the stores and deletions made on it so far, 'none' = the constant None, 'other'."""
+
+    def __init__(self, kind: str, path: tuple = (), deep: bool = False):
+        self.kind, self.path, self.deep = kind, path, deep
+        self.over: dict = {}
+        self.deleted: list = []
+        self.kids: dict = {}
+
+    def child(self, key):
+        if key in self.over:
+            return self.over[key]
+        if self.kind == "copy" and self.deep:
+            return self.kids.setdefault(key, _Dict("copy", self.path + (key,), True))
+        return _Dict("live", self.path + (key,))  # a shallow copy shares its values with the live object
+
+    def copied(self, deep: bool = False) -> "_Dict":
+        c = _Dict("copy", self.path, deep or (self.kind == "copy" and self.deep))
+        c.over, c.deleted = dict(self.over), list(self.deleted)
+        return c
+
+
+def _follow_getstate(g):
+    """Straight-line abstract execution of __getstate__ -> (returned, edits_live, unfollowed)."""
+    env: dict = {}
+    edits_live: List[str] = []
+    unfollowed: List[str] = []
+    returned: List[_Dict] = []
+
+    def key_of(sub: ast.Subscript):
+        return sub.slice.value if isinstance(sub.slice, ast.Constant) and isinstance(sub.slice.value, str) else None
+
+    def ev(e) -> _Dict:
+        if isinstance(e, ast.Attribute) and norm(e) == "self.__dict__":
+            return _Dict("live", ())
+        if isinstance(e, ast.Call) and norm(e) == "vars(self)":
+            return _Dict("live", ())
+        if isinstance(e, ast.Name):
+            return env.get(e.id, _Dict("other"))
+        if isinstance(e, ast.Constant) and e.value is None:
+            return _Dict("none")
+        if isinstance(e, ast.Subscript) and key_of(e) is not None:
+            b = ev(e.value)
+            return b.child(key_of(e)) if b.kind in ("live", "copy") else _Dict("other")
+        if isinstance(e, ast.Call) and not e.keywords:
+            fn = call_name(e) or ""
+            if isinstance(e.func, ast.Attribute) and e.func.attr == "copy" and not e.args:
+                b = ev(e.func.value)
+                if b.kind in ("live", "copy"):
+                    return b.copied()
+            if len(e.args) == 1 and fn in ("dict", "copy", "copy.copy", "deepcopy", "copy.deepcopy"):
+                b = ev(e.args[0])
+                if b.kind in ("live", "copy"):
+                    return b.copied(deep=fn.endswith("deepcopy"))
+        return _Dict("other")
+
+    def store(target: ast.Subscript, value: Optional[_Dict], what: ast.AST) -> None:
+        k = key_of(target)
+        b = ev(target.value)
+        if b.kind == "live":
+            edits_live.append(norm(target))
+        elif b.kind == "copy" and k is not None:
+            if value is None:
+                b.over.pop(k, None)
+                b.deleted.append(k)
+            else:
+                b.over[k] = value
+                if k in b.deleted:
+                    b.deleted.remove(k)
+        else:
+            unfollowed.append(short(what, 70))
+
+    for s in g.body:
+        if isinstance(s, ast.Expr) and isinstance(s.value, ast.Constant):
+            continue
+        if isinstance(s, (ast.Assign, ast.AnnAssign)) and s.value is not None:
+            tgts = s.targets if isinstance(s, ast.Assign) else [s.target]
+            if len(tgts) == 1 and isinstance(tgts[0], ast.Name):
+                env[tgts[0].id] = ev(s.value)
+                continue
+            if len(tgts) == 1 and isinstance(tgts[0], ast.Subscript):
+                store(tgts[0], ev(s.value), s)
+                continue
+        if isinstance(s, ast.Delete) and all(isinstance(t, ast.Subscript) for t in s.targets):
+            for t in s.targets:
+                store(t, None, s)
+            continue
+        if isinstance(s, ast.Expr) and isinstance(s.value, ast.Call) and isinstance(s.value.func, ast.Attribute) and s.value.func.attr == "pop" \
+                and len(s.value.args) == 1 and not s.value.keywords and isinstance(s.value.args[0], ast.Constant):
+            # d.pop(k) without a default removes exactly k (KeyError when absent, like del)
+            fake = ast.Subscript(value=s.value.func.value, slice=s.value.args[0], ctx=ast.Del())
+            store(ast.copy_location(fake, s.value), None, s)
+            continue
+        if isinstance(s, ast.Return):
+            returned.append(ev(s.value) if s.value is not None else _Dict("none"))
+            continue
+        if any(isinstance(x, ast.Name) and (x.id == "self" or x.id in env) for x in ast.walk(s)):
+            unfollowed.append(short(s, 70))
+    return returned, edits_live, unfollowed
+
+
+def _state_diff(obj: _Dict, path: tuple, deleted: list, nulls: list, replaced: list) -> None:
+    for k in obj.deleted:
+        deleted.append(path + (k,))
+    for k, v in obj.over.items():
+        p = path + (k,)
+        if v.kind == "none":
+            nulls.append(p)
+        elif v.kind == "copy" and v.path == p:
+            _state_diff(v, p, deleted, nulls, replaced)
+        elif v.kind == "live" and v.path == p:
+            continue  # stored back unchanged
+        else:
+            replaced.append(p)
+
+
+def _keys(paths) -> List[str]:
+    return ["state" + "".join(f"[{k!r}]" for k in p) for p in paths]
+
+
 def _r24c(chk, repo) -> None:
     g = repo.fn(FCONF, "FluffConfig.__getstate__")
-    dels = [n for n in walk_local(g) if isinstance(n, ast.Delete)]
-    deleted = [norm(t) for n in dels for t in n.targets]
-    chk.require(deleted == ["state['_plugin_manager']"], "R24c", g, f"__getstate__ must delete exactly the plugin manager from the state copy, deletes {deleted}", detail="getstate deletes plugin manager only")
-    stores = [n for n in walk_local(g) if isinstance(n, ast.Assign) and isinstance(n.targets[0], ast.Subscript)]
-    nulls = [n for n in stores if isinstance(n.value, ast.Constant) and n.value.value is None]
-    chk.require([norm(n.targets[0]) for n in nulls] == ["state['_configs']['core']['templater_obj']"], "R24c", g,
-                f"__getstate__ must null exactly core.templater_obj, nulls {[norm(n.targets[0]) for n in nulls]}", detail="getstate nulls templater_obj only")
-    other = [n for n in stores if n not in nulls]
-    copies_ok = all(isinstance(n.value, ast.Call) and last_attr(n.value) in ("copy", "deepcopy") and norm(n.value.func.value) == norm(n.targets[0]) for n in other)
-    copied = {norm(n.targets[0]) for n in other}
-    chk.require(copies_ok and {"state['_configs']", "state['_configs']['core']"} <= copied, "R24c", g,
-                "__getstate__ edits nested dicts without copying them first (the live config of the main process would lose its templater)", detail="getstate copies before editing")
-    st0 = [n for n in walk_local(g) if isinstance(n, ast.Assign) and isinstance(n.targets[0], ast.Name) and isinstance(n.value, ast.Call) and norm(n.value) == "self.__dict__.copy()"]
-    chk.require(len(st0) == 1, "R24c", g, "__getstate__ must start from a copy of self.__dict__", detail="getstate starts from dict copy")
+    returned, edits_live, unfollowed = _follow_getstate(g)
+    chk.require(not unfollowed, "R24c", g, f"__getstate__ contains statements on the state that the straight-line reading cannot follow: {unfollowed}", detail="getstate statements followed")
+    starts_ok = bool(returned) and all(r.kind == "copy" and r.path == () for r in returned)
+    chk.require(starts_ok, "R24c", g, "__getstate__ must start from a copy of self.__dict__", detail="getstate starts from dict copy")
+    deleted: list = []
+    nulls: list = []
+    replaced: list = []
+    for r in returned:
+        if r.kind == "copy":
+            _state_diff(r, (), deleted, nulls, replaced)
+    chk.require(deleted == [("_plugin_manager",)] * len(returned), "R24c", g, f"__getstate__ must delete exactly the plugin manager from the state copy, deletes {_keys(deleted)}", detail="getstate deletes plugin manager only")
+    chk.require(nulls == [("_configs", "core", "templater_obj")] * len(returned) and not replaced, "R24c", g,
+                f"__getstate__ must null exactly core.templater_obj, nulls {_keys(nulls)}" + (f", replaces {_keys(replaced)}" if replaced else ""), detail="getstate nulls templater_obj only")
+    chk.require(not edits_live, "R24c", g,
+                f"__getstate__ edits nested dicts without copying them first (the live config of the main process would lose its templater): {edits_live}", detail="getstate copies before editing")
     # no in-place edit of self
     selfstores = [n for n in ast.walk(g) if isinstance(n, (ast.Attribute, ast.Subscript)) and isinstance(n.ctx, (ast.Store, ast.Del)) and root_name(n) == "self"]
     chk.require(not selfstores, "R24c", g, "__getstate__ modifies self", detail="getstate leaves self alone")
     s = repo.fn(FCONF, "FluffConfig.__setstate__")
-    upd = any(norm(c) == "self.__dict__.update(state)" for c in calls_in(s))
-    pm = any(isinstance(n, ast.Assign) and norm(n.targets[0]) == "self._plugin_manager" and isinstance(n.value, ast.Call) and last_attr(n.value) == "get_plugin_manager" for n in walk_local(s))
+    scfg = cfg_of(s)
+    upd = any(
+        isinstance(c.func, ast.Attribute) and c.func.attr == "update" and norm(c.func.value) == "self.__dict__" and len(c.args) == 1
+        and _leaves_are(scfg, c.args[0], scfg.stmt_of(c), _is_param)
+        for c in calls_in(s)
+    )
+    pm = any(
+        isinstance(n, ast.Assign) and norm(n.targets[0]) == "self._plugin_manager"
+        and _leaves_are(scfg, n.value, n, lambda o: o.kind == "expr" and not o.path and isinstance(o.expr, ast.Call) and last_attr(o.expr) == "get_plugin_manager")
+        for n in walk_local(s)
+    )
     chk.require(upd and pm, "R24c", s, "__setstate__ must restore the state and fetch a fresh plugin manager", detail="setstate restores + fresh plugin manager")
 
 
 # ---------------------------------------------------------------------------
+_NEUTRAL = "neutral"
+
+
+def _reraise_types(cfg, test: ast.expr, truth: bool, at, is_subject, depth: int = 0):
+    """What does `test` being `truth` say about the class of the funnel's exception?
+
+    set of class names  the fact is exactly "isinstance(<exception>, one of these)"
+    _NEUTRAL            the fact only excludes classes (a failed isinstance test)
+    None                the fact depends on something else: the raise is conditional"""
+    if depth > 6:
+        return None
+    if isinstance(test, ast.UnaryOp) and isinstance(test.op, ast.Not):
+        return _reraise_types(cfg, test.operand, not truth, at, is_subject, depth + 1)
+    if isinstance(test, ast.Name):  # test hoisted into a boolean local
+        os_ = origins(cfg, test, at)
+        if len(os_) == 1 and os_[0].kind == "expr" and not os_[0].path and os_[0].expr is not test:
+            return _reraise_types(cfg, os_[0].expr, truth, os_[0].stmt, is_subject, depth + 1)
+        return None
+    if isinstance(test, ast.Call) and call_name(test) == "isinstance" and len(test.args) == 2 and not test.keywords and is_subject(test.args[0], at):
+        if not truth:
+            return _NEUTRAL
+        t = test.args[1]
+        return {norm(x) for x in (t.elts if isinstance(t, ast.Tuple) else [t])}
+    if isinstance(test, ast.BoolOp):
+        disjunction = (isinstance(test.op, ast.Or) and truth) or (isinstance(test.op, ast.And) and not truth)
+        parts = [_reraise_types(cfg, v, truth, at, is_subject, depth + 1) for v in test.values]
+        if any(p is None for p in parts):
+            return None
+        sets = [p for p in parts if p != _NEUTRAL]
+        if disjunction:
+            # A or B: reached for every class named in any disjunct - provided no disjunct is a mere exclusion
+            return set().union(*sets) if len(sets) == len(parts) else None
+        if not sets:
+            return _NEUTRAL
+        out = set(sets[0])
+        for x in sets[1:]:
+            out &= x
+        return out
+    return None
+
+
+def _feeds_funnel(cfg, h: ast.ExceptHandler, funnel_params: List[str], carrier_params: List[str]) -> bool:
+    """A top-level statement of the handler hands the caught object to the funnel, returns
+    it in the carrier, or re-raises it."""
+    caught = lambda e, at: e is not None and _leaves_are(cfg, e, at, lambda o: o.kind == "except" and o.stmt is h and not o.path)  # noqa: E731
+    exc_pos = funnel_params.index("e") if "e" in funnel_params else 1
+    ee_pos = carrier_params.index("ee") if "ee" in carrier_params else 0
+
+    def carrier(o) -> bool:
+        return o.kind == "expr" and not o.path and isinstance(o.expr, ast.Call) and last_attr(o.expr) == "DelayedException" and caught(_arg(o.expr, ee_pos, "ee"), o.stmt)
+
+    for s in h.body:  # top-level statements of the handler only
+        if isinstance(s, (ast.Expr, ast.Return)) and isinstance(s.value, ast.Call):
+            c = s.value
+            if last_attr(c) == "_handle_lint_path_exception" and caught(_arg(c, exc_pos, "e"), s):
+                return True
+        if isinstance(s, ast.Return) and s.value is not None and _leaves_are(cfg, s.value, s, carrier):
+            return True
+        if isinstance(s, ast.Raise) and s.exc is None:
+            return True
+    return False
+
+
 def _r24d(chk, repo, mod) -> None:
     funnel = repo.fn(RUNNER, "BaseRunner._handle_lint_path_exception")
     fcfg = cfg_of(funnel)
-    params = [a.arg for a in funnel.args.args]
+    funnel_params = _param_names(funnel)
+    carrier_params = _param_names(repo.fn(RUNNER, "DelayedException.__init__"))
+    is_subject = lambda e, at: _leaves_are(fcfg, e, at, _is_param)  # noqa: E731
     # (1) the funnel re-raises I/O and user errors
     reraised: Set[str] = set()
     for r in [n for n in walk_local(funnel) if isinstance(n, ast.Raise)]:
-        for e, pol in fcfg.conditions(r):
-            if pol and isinstance(e, ast.Call) and call_name(e) == "isinstance" and len(e.args) == 2:
-                t = e.args[1]
-                names = [norm(x) for x in (t.elts if isinstance(t, ast.Tuple) else [t])]
-                raised = r.exc
-                if raised is not None and root_name(raised) in params:
-                    reraised |= set(names)
+        raised = r.exc
+        root = _root_node(raised) if raised is not None else None
+        if root is None or not is_subject(root, r):
+            continue
+        facts = []
+        for g in fcfg.guards(r):
+            if isinstance(g.stmt, (ast.If, ast.While)):
+                facts.append(_reraise_types(fcfg, g.stmt.test, g.polarity, g.stmt, is_subject))
+        if any(x is None for x in facts):
+            continue  # re-raised only under some further condition
+        sets = [x for x in facts if x != _NEUTRAL]
+        if sets:
+            common = set(sets[0])
+            for x in sets[1:]:
+                common &= x
+            reraised |= common
     for need, why in (("IOError", "I/O errors are reported by the CLI"), ("SQLFluffUserError", "user/config errors must reach the CLI handler and exit 2, whatever the number of processes")):
         ok = need in reraised or (need == "IOError" and "OSError" in reraised)
         chk.require(ok, "R24d", funnel, f"the runners' exception funnel logs {need} instead of re-raising it: {why}", detail=f"funnel re-raises {need}")
     # (2) every catch-all in runner.py feeds the funnel or the carrier
     n_catch = 0
     for q, f in mod.functions():
+        cfg = cfg_of(f)
         for h in [n for n in walk_local(f) if isinstance(n, ast.ExceptHandler)]:
             tnames = [] if h.type is None else [norm(x) for x in (h.type.elts if isinstance(h.type, ast.Tuple) else [h.type])]
             if h.type is not None and not any(t in ("Exception", "BaseException") for t in tnames):
                 continue
             n_catch += 1
-            ok = False
-            for s in h.body:  # top-level statements of the handler only
-                for c in ([s.value] if isinstance(s, (ast.Expr, ast.Return)) and isinstance(s.value, ast.Call) else []):
-                    if last_attr(c) == "_handle_lint_path_exception" and len(c.args) >= 2 and isinstance(c.args[1], ast.Name) and c.args[1].id == h.name:
-                        ok = True
-                    if last_attr(c) == "DelayedException" and c.args and isinstance(c.args[0], ast.Name) and c.args[0].id == h.name and isinstance(s, ast.Return):
-                        ok = True
-                if isinstance(s, ast.Raise) and s.exc is None:
-                    ok = True
-            chk.require(ok, "R24d", h, "a catch-all in the runners neither hands the caught exception to the shared funnel nor returns it in the DelayedException carrier: "
+            chk.require(_feeds_funnel(cfg, h, funnel_params, carrier_params), "R24d", h,
+                        "a catch-all in the runners neither hands the caught exception to the shared funnel nor returns it in the DelayedException carrier: "
                         "user errors raised while linting a file would be swallowed here", detail=f"{q}: catch-all feeds funnel")
     chk.count("R24d.catch_alls", n_catch)
     chk.floor("R24d.catch_alls", 3)
     # (3) the carrier is re-raised into the funnel in the main process
     run = repo.fn(RUNNER, "ParallelRunner.run")
+    rcfg = cfg_of(run)
     ok = False
     for t in [n for n in walk_local(run) if isinstance(n, ast.Try)]:
         if any(isinstance(c, ast.Call) and last_attr(c) == "reraise" for s in t.body for c in ast.walk(s)):
             for h in t.handlers:
-                for s in h.body:
-                    if isinstance(s, ast.Expr) and isinstance(s.value, ast.Call) and last_attr(s.value) == "_handle_lint_path_exception" and len(s.value.args) >= 2 \
-                            and isinstance(s.value.args[1], ast.Name) and s.value.args[1].id == h.name:
-                        ok = True
+                if any(
+                    isinstance(s, ast.Expr) and isinstance(s.value, ast.Call) and last_attr(s.value) == "_handle_lint_path_exception" for s in h.body
+                ) and _feeds_funnel(rcfg, h, funnel_params, carrier_params):
+                    ok = True
     chk.require(ok, "R24d", run, "a DelayedException from a worker is not re-raised into the shared funnel in the main process", detail="carrier re-raised into funnel")
     rr = repo.fn(RUNNER, "DelayedException.reraise")
-    ok = any(isinstance(n, ast.Raise) and n.exc is not None and "self.ee" in norm(n.exc) for n in walk_local(rr))
+    rrcfg = cfg_of(rr)
+    ok = any(isinstance(n, ast.Raise) and n.exc is not None and _mentions(rrcfg, n.exc, n, "self.ee") for n in walk_local(rr))
     chk.require(ok, "R24d", rr, "DelayedException.reraise does not raise the carried exception", detail="carrier raises carried exception")
 
 
 def _self_attr(t):
     return t.attr if isinstance(t, ast.Attribute) and isinstance(t.value, ast.Name) and t.value.id == "self" else None
+
+
+def _split_on_param(s: ast.If, p: str):
+    """(statements run when p is truthy, statements run when it is falsy) for `if p:` / `if not p:`."""
+    if isinstance(s.test, ast.Name) and s.test.id == p:
+        return s.body, s.orelse
+    if isinstance(s.test, ast.UnaryOp) and isinstance(s.test.op, ast.Not) and isinstance(s.test.operand, ast.Name) and s.test.operand.id == p:
+        return s.orelse, s.body
+    return None
 
 
 def _derived_only_param(init, p, const, args, params) -> bool:
@@ -428,10 +765,10 @@ def _derived_only_param(init, p, const, args, params) -> bool:
     d = defaults.get(p)
     if not (isinstance(d, ast.Constant) and d.value == const.value and type(d.value) is type(const.value) and not const.value):
         return False
-    guards = [s for s in ast.walk(init) if isinstance(s, ast.If) and isinstance(s.test, ast.Name) and s.test.id == p]
-    covered = {id(s.test) for s in guards}
+    guards = [s for s in ast.walk(init) if isinstance(s, ast.If) and _split_on_param(s, p) is not None]
+    covered = {id(x) for s in guards for x in ast.walk(s.test)}
     for g in guards:
-        for st in g.body:
+        for st in _split_on_param(g, p)[0]:
             covered.update(id(x) for x in ast.walk(st))
     uses = [x for x in ast.walk(init) if isinstance(x, ast.Name) and x.id == p]
     if not guards or any(id(x) not in covered for x in uses):
@@ -439,7 +776,8 @@ def _derived_only_param(init, p, const, args, params) -> bool:
     carried = {q: _self_attr(a) for a, q in zip(args, params)}
     for g in guards:
         derived = set()
-        for st in g.body:
+        when_set, when_unset = _split_on_param(g, p)
+        for st in when_set:
             for x in ast.walk(st):
                 if isinstance(x, (ast.Assign, ast.AugAssign, ast.AnnAssign)):
                     tgts = x.targets if isinstance(x, ast.Assign) else [x.target]
@@ -454,7 +792,7 @@ def _derived_only_param(init, p, const, args, params) -> bool:
                     if not (isinstance(x.func, ast.Attribute) and isinstance(r, ast.Name) and r.id == p):
                         return False  # only methods of p itself: any other call may set state the else-branch does not replay
         restored = {}
-        for st in g.orelse:
+        for st in when_unset:
             if isinstance(st, ast.Assign) and len(st.targets) == 1 and _self_attr(st.targets[0]) and isinstance(st.value, ast.Name):
                 restored[_self_attr(st.targets[0])] = st.value.id
         for attr in derived:
@@ -491,13 +829,23 @@ def _r24f(chk, repo) -> None:
                             for nm in names:
                                 attr_of.setdefault(st.targets[0].attr, set()).add(nm)
         rets = [r for r in walk_local(red) if isinstance(r, ast.Return)]
+        rcfg = cfg_of(red)
         ok, why = True, ""
+        # every (callable, (args...)) pair that may be returned; the pair or the argument tuple may be bound to a local first
+        arg_tuples = []
         for r in rets:
-            v = r.value
-            if not (isinstance(v, ast.Tuple) and len(v.elts) == 2 and isinstance(v.elts[1], ast.Tuple)):
-                ok, why = False, "__reduce__ does not return (type(self), (args...))"
-                break
-            args = v.elts[1].elts
+            for o in (origins(rcfg, r.value, r) if r.value is not None else []):
+                v = o.expr
+                inner = []
+                if o.kind == "expr" and not o.path and isinstance(v, ast.Tuple) and len(v.elts) == 2:
+                    inner = [oo.expr for oo in origins(rcfg, v.elts[1], o.stmt) if oo.kind == "expr" and not oo.path and isinstance(oo.expr, ast.Tuple)]
+                    if len(inner) != len(origins(rcfg, v.elts[1], o.stmt)):
+                        inner = []
+                if not inner:
+                    ok, why = False, "__reduce__ does not return (type(self), (args...))"
+                arg_tuples += inner
+        for tup in (arg_tuples if ok else []):
+            args = tup.elts
             if len(args) != len(params):
                 ok, why = False, f"__reduce__ passes {len(args)} values but __init__ takes {len(params)} parameters {params}: the missing ones are reset to their defaults when a result comes back from a worker"
                 break
@@ -516,17 +864,183 @@ def _r24f(chk, repo) -> None:
 
 from ..selftest import Variant  # noqa: E402
 
+ERRORS = "src/sqlfluff/core/errors.py"
+
+_FUNNEL_WARNING = (
+    "        linter_logger.warning(\n"
+    "            f\"\"\"Unable to lint {fname} due to an internal error. \\\n"
+    "Please report this as an issue with your query's contents and stacktrace below!\n"
+    "To hide this warning, add the failing file to .sqlfluffignore\n"
+    "{traceback.format_exc()}\"\"\",\n"
+    "        )\n"
+)
+
+_FUNNEL_WARNING_INDENTED = (
+    "            linter_logger.warning(\n"
+    "                f\"\"\"Unable to lint {fname} due to an internal error. \\\n"
+    "Please report this as an issue with your query's contents and stacktrace below!\n"
+    "To hide this warning, add the failing file to .sqlfluffignore\n"
+    "{traceback.format_exc()}\"\"\",\n"
+    "            )\n"
+)
+_FUNNEL_RAISE = (
+    "        if isinstance(e, (IOError, SQLFluffUserError)):\n"
+    "            # IOErrors and user errors are caught in commands.py, so\n"
+    "            # propagate them (regardless of which runner is in use).\n"
+    "            raise (e)  # pragma: no cover\n"
+)
+_APPLY_COMMENT = (
+    "                # FluffConfig.__getstate__ strips templater_obj to None before\n"
+    "                # pickling (it's designed for main-process use only). Since we\n"
+    "                # are deliberately rendering here in the worker, re-instantiate\n"
+    "                # the templater from the config's templater name.\n"
+)
+
 VARIANTS = [
+    # behaviour-preserving refactors: must stay quiet
+    Variant("quiet-worker-rule-pack-through-locals", RUNNER,
+            "                rule_pack = linter.get_rulepack(config=rendered.config)\n                return Linter.lint_rendered(rendered, rule_pack, task.fix, None)\n",
+            "                pack_for_file = linter.get_rulepack(config=rendered.config)\n                rule_pack = pack_for_file\n                return Linter.lint_rendered(rendered, rule_pack, task.fix, None)\n",
+            "QUIET", None, "rule pack passed through a second local"),
+    Variant("quiet-worker-filename-and-fix-through-locals", RUNNER,
+            "                rendered = linter.render_file(task.fname, task.root_config)\n"
+            "                rule_pack = linter.get_rulepack(config=rendered.config)\n"
+            "                return Linter.lint_rendered(rendered, rule_pack, task.fix, None)\n",
+            "                task_file = task.fname\n"
+            "                fix_flag = task.fix\n"
+            "                rendered = linter.render_file(task_file, task.root_config)\n"
+            "                rule_pack = linter.get_rulepack(config=rendered.config)\n"
+            "                return Linter.lint_rendered(rendered, rule_pack, fix_flag, None)\n",
+            "QUIET", None, "the task's filename and fix flag are read into locals first"),
+    Variant("quiet-worker-root-config-through-local", RUNNER,
+            "                linter = Linter(\n                    config=task.root_config, user_rules=list(task.user_rules)\n                )\n" + _APPLY_COMMENT
+            + "                linter.templater = task.root_config.get_templater()\n                rendered = linter.render_file(task.fname, task.root_config)\n",
+            "                root = task.root_config\n                linter = Linter(config=root, user_rules=list(task.user_rules))\n"
+            "                linter.templater = root.get_templater()\n                rendered = linter.render_file(task.fname, root)\n",
+            "QUIET", None, "task.root_config read once into a local and used for the Linter, the templater and the rendering"),
+    Variant("quiet-worker-linter-positional-config-rules-local", RUNNER,
+            "                linter = Linter(\n                    config=task.root_config, user_rules=list(task.user_rules)\n                )\n",
+            "                worker_rules = list(task.user_rules)\n                linter = Linter(task.root_config, user_rules=worker_rules)\n",
+            "QUIET", None, "config passed positionally (first parameter), user rules through a local"),
+    Variant("quiet-worker-templater-through-local", RUNNER,
+            "                linter.templater = task.root_config.get_templater()\n",
+            "                fresh_templater = task.root_config.get_templater()\n                linter.templater = fresh_templater\n",
+            "QUIET", None, "re-created templater held in a local"),
+    Variant("quiet-worker-calls-with-keywords", RUNNER,
+            "                rendered = linter.render_file(task.fname, task.root_config)\n"
+            "                rule_pack = linter.get_rulepack(config=rendered.config)\n"
+            "                return Linter.lint_rendered(rendered, rule_pack, task.fix, None)\n",
+            "                rendered = linter.render_file(fname=task.fname, root_config=task.root_config)\n"
+            "                rule_pack = linter.get_rulepack(rendered.config)\n"
+            "                return Linter.lint_rendered(rendered=rendered, rule_pack=rule_pack, fix=task.fix, formatter=None)\n",
+            "QUIET", None, "keyword <-> positional arguments"),
+    Variant("quiet-serial-file-config-through-local", RUNNER,
+            "            rule_pack = self.linter.get_rulepack(config=rendered.config)\n            yield (\n",
+            "            file_config = rendered.config\n            rule_pack = self.linter.get_rulepack(config=file_config)\n            yield (\n",
+            "QUIET", None, "per-file config of the rendering read into a local"),
+    Variant("quiet-partial-callee-hoisted", RUNNER,
+            "            rule_pack = self.linter.get_rulepack(config=rendered.config)\n            yield (\n                fname,\n                functools.partial(\n                    self.linter.lint_rendered,\n",
+            "            rule_pack = self.linter.get_rulepack(config=rendered.config)\n            lint_one = self.linter.lint_rendered\n            yield (\n                fname,\n                functools.partial(\n                    lint_one,\n",
+            "QUIET", None, "bound lint method hoisted into a local before building the partial"),
+    Variant("quiet-deferred-packet-keywords", RUNNER,
+            "                    DeferredRenderTask(\n                        fname, self.config, fix, tuple(self.linter.user_rules)\n                    ),",
+            "                    DeferredRenderTask(\n                        fname=fname, root_config=self.config, fix=fix, user_rules=tuple(self.linter.user_rules)\n                    ),",
+            "QUIET", None, "packet fields by keyword"),
+    Variant("quiet-deferred-packet-fields-through-locals", RUNNER,
+            "                yield (\n                    fname,\n                    DeferredRenderTask(\n                        fname, self.config, fix, tuple(self.linter.user_rules)\n                    ),\n                )\n",
+            "                rules_for_worker = tuple(self.linter.user_rules)\n                root_config = self.config\n"
+            "                packet = DeferredRenderTask(fname, root_config, fix, rules_for_worker)\n                yield (fname, packet)\n",
+            "QUIET", None, "packet fields and the packet itself held in locals"),
+    Variant("quiet-iter-rendered-root-config-local", RUNNER,
+            "                yield fname, self.linter.render_file(fname, self.config)\n",
+            "                root_config = self.config\n                rendered = self.linter.render_file(fname, root_config)\n                yield fname, rendered\n",
+            "QUIET", None, "root config and rendering through locals"),
+    Variant("quiet-sequence-files-positional-config", RUNNER,
+            "            fnames, config=self.config, formatter=self.linter.formatter\n",
+            "            fnames, self.config, formatter=self.linter.formatter\n",
+            "QUIET", None, "config is the second positional parameter of sequence_files"),
+    Variant("quiet-result-dir-lookup-inline", LINTER,
+            "                linted_dir = expanded_path_to_linted_dir[linted_file.path]\n                linted_dir.add(linted_file)\n",
+            "                expanded_path_to_linted_dir[linted_file.path].add(linted_file)\n",
+            "QUIET", None, "directory lookup inlined into the add call"),
+    Variant("quiet-result-path-through-local", LINTER,
+            "                linted_dir = expanded_path_to_linted_dir[linted_file.path]\n",
+            "                own_path = linted_file.path\n                linted_dir = expanded_path_to_linted_dir[own_path]\n",
+            "QUIET", None, "the result's own path read into a local before the lookup"),
+    Variant("quiet-skip-counter-through-local", LINTER,
+            "        result.files_skipped = runner.skipped_file_count\n",
+            "        skipped_total = runner.skipped_file_count\n        result.files_skipped = skipped_total\n",
+            "QUIET", None, "skip counter through a local, still read after the stream"),
+    Variant("quiet-records-sorted-through-local", LRES,
+            "        return sorted(\n            (record for linted_dir in self.paths for record in linted_dir.as_records()),\n            # Sort records by filename\n            key=lambda record: record[\"filepath\"],\n        )",
+            "        records = sorted(\n            (record for linted_dir in self.paths for record in linted_dir.as_records()),\n            # Sort records by filename\n            key=lambda record: record[\"filepath\"],\n        )\n        return records",
+            "QUIET", None, "sorted list bound to a local before returning"),
+    Variant("quiet-getstate-nested-copies-through-locals", FCONF,
+            "        state[\"_configs\"] = state[\"_configs\"].copy()\n        state[\"_configs\"][\"core\"] = state[\"_configs\"][\"core\"].copy()\n        state[\"_configs\"][\"core\"][\"templater_obj\"] = None\n",
+            "        configs = state[\"_configs\"].copy()\n        core = configs[\"core\"].copy()\n        core[\"templater_obj\"] = None\n        configs[\"core\"] = core\n        state[\"_configs\"] = configs\n",
+            "QUIET", None, "nested dict copies edited through locals, then stored back"),
+    Variant("quiet-getstate-dict-constructor-and-pop", FCONF,
+            "        state = self.__dict__.copy()\n        # Remove the unpicklable entries.\n        del state[\"_plugin_manager\"]\n",
+            "        state = dict(self.__dict__)\n        # Remove the unpicklable entries.\n        state.pop(\"_plugin_manager\")\n",
+            "QUIET", None, "dict(d) is d.copy(); pop(k) without default is del d[k]"),
+    Variant("quiet-setstate-plugin-manager-through-local", FCONF,
+            "        self._plugin_manager = get_plugin_manager()\n",
+            "        fresh_manager = get_plugin_manager()\n        self._plugin_manager = fresh_manager\n",
+            "QUIET", None, "fresh plugin manager through a local"),
+    Variant("quiet-funnel-test-in-boolean-local", RUNNER,
+            "        if isinstance(e, (IOError, SQLFluffUserError)):\n",
+            "        propagate = isinstance(e, (IOError, SQLFluffUserError))\n        if propagate:\n",
+            "QUIET", None, "re-raise test hoisted into a boolean local"),
+    Variant("quiet-funnel-or-of-isinstance", RUNNER,
+            "        if isinstance(e, (IOError, SQLFluffUserError)):\n",
+            "        if isinstance(e, IOError) or isinstance(e, SQLFluffUserError):\n",
+            "QUIET", None, "isinstance with a tuple spelled as a disjunction"),
+    Variant("quiet-funnel-elif", RUNNER,
+            _FUNNEL_RAISE,
+            "        if isinstance(e, IOError):\n            raise e\n        elif isinstance(e, SQLFluffUserError):\n            raise e\n",
+            "QUIET", None, "if/elif instead of a tuple of classes"),
+    Variant("quiet-funnel-log-branch-first", RUNNER,
+            _FUNNEL_RAISE + _FUNNEL_WARNING,
+            "        if not isinstance(e, (IOError, SQLFluffUserError)):\n" + _FUNNEL_WARNING_INDENTED + "            return\n        raise e\n",
+            "QUIET", None, "inverted test: log and return early, otherwise re-raise"),
+    Variant("quiet-handler-funnel-keywords", RUNNER,
+            "            except Exception as e:\n                self._handle_lint_path_exception(fname, e)\n",
+            "            except Exception as e:\n                self._handle_lint_path_exception(fname=fname, e=e)\n",
+            "QUIET", None, "funnel called with keyword arguments"),
+    Variant("quiet-handler-caught-through-local", RUNNER,
+            "            except Exception as e:\n                self._handle_lint_path_exception(fname, e)\n",
+            "            except Exception as e:\n                caught = e\n                self._handle_lint_path_exception(fname, caught)\n",
+            "QUIET", None, "caught exception passed through a local"),
+    Variant("quiet-worker-carrier-through-local", RUNNER,
+            "        except Exception as e:\n            return DelayedException(e, fname=fname)",
+            "        except Exception as e:\n            carrier = DelayedException(ee=e, fname=fname)\n            return carrier",
+            "QUIET", None, "carrier built with keywords, bound to a local, then returned"),
+    Variant("quiet-reraise-through-local", RUNNER,
+            "        raise self.ee.with_traceback(self.tb)\n",
+            "        carried = self.ee\n        raise carried.with_traceback(self.tb)\n",
+            "QUIET", None, "carried exception read into a local"),
+    Variant("quiet-lint-error-reduce-args-through-local", ERRORS,
+            "        return type(self), (\n            self.description,\n            self.segment,\n            self.rule,\n            self.fixes,\n            self.ignore,\n            self.fatal,\n            self.warning,\n        )",
+            "        ctor_args = (\n            self.description,\n            self.segment,\n            self.rule,\n            self.fixes,\n            self.ignore,\n            self.fatal,\n            self.warning,\n        )\n        return type(self), ctor_args",
+            "QUIET", None, "constructor argument tuple bound to a local"),
+    Variant("quiet-parse-error-reduce-result-through-local", ERRORS,
+            "        return type(self), (\n            self.description,\n            self.segment,\n            self.line_no,\n            self.line_pos,\n            self.ignore,\n            self.fatal,\n            self.warning,\n        )",
+            "        rebuilt = (type(self), (\n            self.description,\n            self.segment,\n            self.line_no,\n            self.line_pos,\n            self.ignore,\n            self.fatal,\n            self.warning,\n        ))\n        return rebuilt",
+            "QUIET", None, "whole (callable, args) pair bound to a local"),
+    Variant("quiet-base-error-guard-flipped", ERRORS,
+            "        if pos:\n            self.line_no, self.line_pos = pos.source_position()\n        else:\n            self.line_no = line_no\n            self.line_pos = line_pos\n",
+            "        if not pos:\n            self.line_no = line_no\n            self.line_pos = line_pos\n        else:\n            self.line_no, self.line_pos = pos.source_position()\n",
+            "QUIET", None, "branches of the pos test swapped"),
+    Variant("quiet-base-error-position-unpacked-by-index", ERRORS,
+            "            self.line_no, self.line_pos = pos.source_position()\n",
+            "            where = pos.source_position()\n            self.line_no = where[0]\n            self.line_pos = where[1]\n",
+            "QUIET", None, "tuple unpacking <-> indexing"),
     Variant("worker-rule-pack-from-root-config", RUNNER,
             "                rule_pack = linter.get_rulepack(config=rendered.config)\n",
             "                rule_pack = linter.get_rulepack(config=task.root_config)\n", "R24a", "_apply", "seeded C24-2"),
     Variant("serial-rule-pack-from-root-config", RUNNER,
             "            rule_pack = self.linter.get_rulepack(config=rendered.config)\n            yield (\n",
             "            rule_pack = self.linter.get_rulepack(config=self.config)\n            yield (\n", "R24a", "iter_partials"),
-    Variant("quiet-worker-rule-pack-through-locals", RUNNER,
-            "                rule_pack = linter.get_rulepack(config=rendered.config)\n                return Linter.lint_rendered(rendered, rule_pack, task.fix, None)\n",
-            "                pack_for_file = linter.get_rulepack(config=rendered.config)\n                rule_pack = pack_for_file\n                return Linter.lint_rendered(rendered, rule_pack, task.fix, None)\n",
-            "QUIET", None, "rule pack passed through a second local"),
     Variant("base-error-pickle-loses-stored-pos", "src/sqlfluff/core/errors.py",
             "        self.description = description\n        if pos:",
             "        self.description = description\n        self.pos = pos\n        if pos:", "R24f", "SQLBaseError",
